@@ -11,8 +11,10 @@ Tie:
     here with write/flush yield points) along schedules (exhaustive <= 2 pre-emptions for 2 actors,
     samples for 3, random, corpus) and compares every step with the Lean transition system.
 Direct oracle (independent of the model): a mutual-exclusion monitor over the observed system calls and
-directory snapshots, and fault injection at every interposed call of every dulwich routine that writes
-through the lock protocol.
+directory snapshots, fault injection at every interposed call of every dulwich routine that writes
+through the lock protocol, and (sched.callers2) pairs of real routines run against each other on the same
+file over all interleavings with <= 2 pre-emptions at the lock/rename/unlink calls, the target being re-read
+and re-parsed after every successful rename (complete, well-formed, every untouched entry preserved).
 """
 from __future__ import annotations
 
@@ -1082,6 +1084,9 @@ def _run_corpus(ctx, root, lines):
                                 "`with GitFile(...)` failed with a real, persistent ENOSPC (/dev/full): close() and the "
                                 "abort() in its finally both raise from flushing, the unlink is skipped and `f.lock` is "
                                 "still there while the caller handles the error", ABORT_FCLOSE_CLS)
+        elif c.get("kind") == "callers2":
+            _stream_callers2(ctx, Path(os.path.realpath(ctx.scratch)) / "corpus-callers2", only_pairs={tuple(c["pair"])},
+                             fixed_schedule=c["schedule"], stream="corpus.callers2")
         elif c.get("kind") == "caller-fault":
             _stream_fault_callers(ctx, Path(os.path.realpath(ctx.scratch)) / "corpus-callers", only={c["routine"]},
                                   only_fault=(c["fail_at"], c["fault"]), stream="corpus.callers", extra=False)
@@ -1250,11 +1255,13 @@ def _scenarios(ids):
             pd.close()
 
     def commit_graph_store(r, w):
-        r.object_store.write_commit_graph()
+        r.object_store.write_commit_graph(refs=[c2], reachable=True)
 
     def commit_graph_module(r, w):
         from dulwich.commit_graph import write_commit_graph
-        write_commit_graph(os.fsencode(r.controldir()), r.object_store, [c2])
+        # a CLOSED history (every parent is in the written set), so that a file is written under every version of
+        # generate_commit_graph (some drop or mark commits whose parents are outside the set)
+        write_commit_graph(os.fsencode(r.controldir()), r.object_store, [c1, c2])
 
     def shallow(r, w):
         r.update_shallow({c2}, None)
@@ -1464,11 +1471,18 @@ def _stream_fault_callers(ctx, base: Path, only=None, only_fault=None, stream="f
         shutil.copytree(tpl, w, symlinks=True)
         ref = run_with_fault(w, op, None, None, old, None, None)
         if ref.raised is not None:
-            raise core.InfraError(f"scenario {name} fails without any fault: {ref.raised}")
+            # the routine's API moved or it rejects this input in this tree: nothing to inject into, say so and go on
+            ctx.notes.append(f"fault.callers: scenario {name} raises without any fault in this tree ({ref.raised}); skipped")
+            cov[name] = {"skipped": f"raises without fault: {ref.raised}"}
+            continue
         new = ref.after
         targets = _targets_of(ref.events)
         if not targets:
-            raise core.InfraError(f"scenario {name} never opened a lock file: {ref.events}")
+            # not a tooling failure: the routine (as it is in this tree) decided it had nothing to write
+            ctx.notes.append(f"fault.callers: scenario {name} opened no lock file in this tree (nothing to inject into); "
+                             f"calls seen: {[c for c, _, _ in ref.events][:8]}")
+            cov[name] = {"calls": len(ref.events), "lock_protocol_calls": 0, "targets": [], "skipped": "no lock file opened"}
+            continue
         if ref.locks_after_gc:
             ctx.oracle_fail(stream, {"routine": name}, f"{name} left {ref.locks_after_gc} behind without any fault", f"{name}:lock-leaked")
         cov[name] = {"calls": len(ref.events), "lock_protocol_calls": 0, "targets": sorted(targets)}
@@ -1531,6 +1545,411 @@ def _stream_fault_callers(ctx, base: Path, only=None, only_fault=None, stream="f
                 ctx.oracle_fail(stream, {"routine": "Index.write", "entry_size": 1 << 32}, "lock left behind", "Index.write:lock-leaked")
 
 
+# ------------------------------------------------------------------------------------------------
+# sched.callers2: two real lock-protocol ROUTINES against each other on the same file, interleaved at the
+# lock / rename / unlink calls; an independent monitor reads the target after every successful rename
+
+import re as _re
+
+CALLER_CALLS = {"open-x", "open-w", "replace", "rename", "remove", "unlink"}
+_HEX40 = _re.compile(rb"^[0-9a-f]{40}$")
+
+
+class COp:
+    """One routine as an actor.  `touch`: the entries of each protected file this operation asks to change
+    ({"packed": {ref names}, "config": {(section, key)}, "index": {paths}, "shallow": {shas}, "alternates": {lines}});
+    `refs`: {loose ref name: contents (bytes) this operation may legitimately leave in that file}."""
+
+    def __init__(self, name, fn, touch=None, refs=None):
+        self.name, self.fn, self.touch, self.refs = name, fn, touch or {}, refs or {}
+
+
+def _parse_packed(data: bytes):
+    """independent reader of packed-refs: {name: sha}; raises ValueError on a malformed line"""
+    out, last = {}, None
+    if data and not data.endswith(b"\n"):
+        raise ValueError("last line is not terminated")
+    for ln in data.split(b"\n"):
+        if not ln or ln.startswith(b"#"):
+            continue
+        if ln.startswith(b"^"):
+            if last is None or not _HEX40.match(ln[1:]):
+                raise ValueError(f"bad peeled line {ln[:60]!r}")
+            continue
+        parts = ln.split(b" ")
+        if len(parts) != 2 or not _HEX40.match(parts[0]) or not parts[1].startswith(b"refs/"):
+            raise ValueError(f"bad line {ln[:60]!r}")
+        out[parts[1]] = parts[0]
+        last = parts[1]
+    return out
+
+
+def _parse_config(data: bytes):
+    from io import BytesIO
+    from dulwich.config import ConfigFile
+    cf = ConfigFile.from_file(BytesIO(data))
+    out = {}
+    for section in cf.sections():
+        for k, v in cf.items(section):
+            out[(tuple(section), k)] = v
+    if data.strip() and not out:
+        raise ValueError("no key parsed from a non-empty file")
+    return out
+
+
+def _parse_index(path: str):
+    from dulwich.index import Index
+    idx = Index(path)
+    return {k: idx[k].sha for k in idx}
+
+
+def _parse_lines(data: bytes, hexonly: bool):
+    if data and not data.endswith(b"\n"):
+        raise ValueError("last line is not terminated")
+    lines = [ln for ln in data.split(b"\n") if ln]
+    if hexonly:
+        for ln in lines:
+            if not _HEX40.match(ln):
+                raise ValueError(f"bad line {ln[:60]!r}")
+    return {ln: True for ln in lines}
+
+
+def _kind_of(rel: str):
+    if rel == ".git/packed-refs":
+        return "packed"
+    if rel == ".git/config":
+        return "config"
+    if rel == ".git/index":
+        return "index"
+    if rel == ".git/shallow":
+        return "shallow"
+    if rel == ".git/objects/info/alternates":
+        return "alternates"
+    if rel == ".git/HEAD" or rel.startswith(".git/refs/"):
+        return "ref"
+    return None
+
+
+def _read_kind(w: Path, rel: str, kind: str):
+    """Parsed entries of a protected file (None if it does not exist); raises ValueError when it is not a complete,
+    well-formed file of its kind."""
+    path = os.path.join(w, rel)
+    try:
+        with open(path, "rb") as fh:
+            data = fh.read()
+    except FileNotFoundError:
+        return None
+    try:
+        if kind == "packed":
+            return _parse_packed(data)
+        if kind == "config":
+            return _parse_config(data)
+        if kind == "index":
+            return _parse_index(path)
+        if kind == "shallow":
+            return _parse_lines(data, True)
+        if kind == "alternates":
+            return _parse_lines(data, False)
+        if kind == "ref":
+            if not _re.match(rb"^([0-9a-f]{40}|ref: refs/\S+)\n$", data):
+                raise ValueError(f"not a ref value: {data[:60]!r}")
+            return {"value": data}
+    except ValueError:
+        raise
+    except Exception as e:  # noqa: BLE001 - any parser failure means: not a well-formed file
+        raise ValueError(f"{type(e).__name__}: {str(e)[:100]}")
+    return {}
+
+
+class CallersRun:
+    def __init__(self):
+        self.events, self.steps, self.bad, self.results, self.error = [], [], [], {}, None
+
+
+def run_callers(tpl: Path, w: Path, ops: list[COp], schedule, baseline: dict) -> CallersRun:
+    """Both operations on a fresh copy of the template, each with its own Repo object (as separate processes
+    would have), interleaved along `schedule` (actor indices; the initial park of a thread is a step too)."""
+    if w.exists():
+        shutil.rmtree(w)
+    shutil.copytree(tpl, w, symlinks=True)
+    cr = CallersRun()
+    names = [f"a{i}" for i in range(len(ops))]
+    idx = {n: i for i, n in enumerate(names)}
+    sc = sched.Scheduler(str(w), calls=CALLER_CALLS, watch_reads=False, timeout=30.0)
+
+    def make(op):
+        def fn():
+            from dulwich.repo import Repo
+            r = Repo(str(w))
+            try:
+                return op.fn(r, w)
+            finally:
+                r.close()
+        return fn
+    for i, op in enumerate(ops):
+        sc.spawn(names[i], make(op))
+    touched = {}
+    for op in ops:
+        for k, v in op.touch.items():
+            touched.setdefault(k, set()).update(v)
+    allowed_refs = {}
+    for op in ops:
+        for k, v in op.refs.items():
+            allowed_refs.setdefault(k, set()).update(v)
+    holders = {}
+    state = {"nev": 0}
+
+    def judge(rel, when):
+        kind = _kind_of(rel)
+        if kind is None:
+            return
+        try:
+            got = _read_kind(w, rel, kind)
+        except ValueError as e:
+            cr.bad.append((f"{when}: `{rel}` is not a complete, well-formed {kind} file ({e})", f"callers2:{kind}:malformed"))
+            return
+        if got is None:
+            return
+        if kind == "ref":
+            name = rel[len(".git/"):].encode()
+            base = baseline.get(rel)
+            ok = set(allowed_refs.get(name, ())) | ({base["value"]} if base else set())
+            if name in allowed_refs and got["value"] not in ok:
+                cr.bad.append((f"{when}: `{rel}` holds {got['value'][:50]!r}, which neither writer meant to write",
+                               "callers2:ref:foreign-content"))
+            return
+        base = baseline.get(rel) or {}
+        lost = [k for k, v in base.items() if k not in touched.get(kind, ()) and got.get(k) != v]
+        if lost:
+            cr.bad.append((f"{when}: `{rel}` lost or changed {len(lost)} entr{'y' if len(lost) == 1 else 'ies'} that neither "
+                           f"operation asked to change, e.g. {lost[0]!r} ({len(got)} of {len(base)} entries left)",
+                           f"callers2:{kind}:untouched-entry-lost"))
+
+    def absorb(history):
+        evs = [e for e in history if e[1] != "start"]
+        while state["nev"] < len(evs):
+            who, call, paths, outcome = evs[state["nev"]]
+            k = state["nev"]
+            state["nev"] += 1
+            i = idx[who]
+            cr.events.append((i, call, list(paths), outcome))
+            if outcome != "ok":
+                continue
+            if call in OPEN_CALLS and paths[0].endswith(".lock"):
+                h = holders.setdefault(paths[0], set())
+                if h:
+                    cr.bad.append((f"step {k}: actor {i} obtained `{paths[0]}` while {sorted(h)} hold(s) it", "two-holders"))
+                h.add(i)
+            elif call in ("replace", "rename") and paths[0].endswith(".lock"):
+                h = holders.setdefault(paths[0], set())
+                if i not in h:
+                    cr.bad.append((f"step {k}: actor {i} renamed `{paths[0]}` which it does not hold", "foreign-lock-disturbed"))
+                h.discard(i)
+                judge(paths[1], f"step {k} (after actor {i}'s rename)")
+            elif call in ("remove", "unlink") and paths[0].endswith(".lock"):
+                h = holders.setdefault(paths[0], set())
+                if i not in h:
+                    cr.bad.append((f"step {k}: actor {i} unlinked `{paths[0]}` which it does not hold", "foreign-lock-disturbed"))
+                h.discard(i)
+
+    seq = list(schedule)
+
+    def choose(pending, history):
+        absorb(history)
+        while seq:
+            i = seq.pop(0)
+            if names[i] in pending:
+                cr.steps.append(i)
+                return names[i]
+        a = sorted(pending)[0]
+        cr.steps.append(idx[a])
+        return a
+    gc_was = gc.isenabled()
+    gc.disable()
+    old_umask = os.umask(0o022)
+    try:
+        with warnings.catch_warnings():
+            warnings.simplefilter("ignore")
+            sc.run(choose)
+            absorb(sc.history)
+            for n, r in sc.results.items():
+                if r.exc is not None:
+                    cr.results[idx[n]] = "exc:" + type(r.exc).__name__
+                    _scrub(r.exc)
+                else:
+                    cr.results[idx[n]] = "ok"
+            sc.results.clear()
+            gc.collect()
+    except RuntimeError as e:
+        cr.error = str(e)
+    finally:
+        os.umask(old_umask)
+        if gc_was:
+            gc.enable()
+    if cr.error is None:
+        for rel in sorted(baseline):
+            judge(rel, "final state")
+        left = _locks(w)
+        if left:
+            cr.bad.append((f"lock file(s) {left} left behind after both operations finished", "callers2:lock-leaked"))
+    return cr
+
+
+def _caller_ops(ids):
+    c1, c2, tree, blob = ids["c1"], ids["c2"], ids["tree"], ids["blob"]
+    kw = dict(committer=b"V Erif <verif@example.com>", timestamp=FIXED_TIME, timezone=0, message=b"verif")
+    PK, TOPIC, MASTER, V0, NEW2 = (b"refs/heads/packed", b"refs/heads/topic", b"refs/heads/master", b"refs/tags/v0",
+                                   b"refs/heads/new2")
+
+    def sha(x):
+        return {x + b"\n"}
+
+    def lidx(path, name):
+        def fn(r, w):
+            from dulwich.index import locked_index
+            with locked_index(os.path.join(r.controldir(), "index")) as idx:
+                idx[path] = _entry(blob, 7)
+        return COp(name, fn, touch={"index": {path}})
+
+    def idx_write(r, w):
+        idx = r.open_index()
+        idx[b"d.txt"] = _entry(blob, 9)
+        idx.write()
+
+    def cfg(section, key, val, name):
+        def fn(r, w):
+            c = r.get_config()
+            c.set(section, key, val)
+            c.write_to_path()
+        return COp(name, fn, touch={"config": {(section, key)}})
+
+    def lref(expect, name):
+        def fn(r, w):
+            from dulwich.refs import locked_ref
+            with locked_ref(r.refs, MASTER) as lr:
+                if lr.ensure_equals(expect):
+                    lr.set(c2)
+        return COp(name, fn, refs={MASTER: sha(c2)})
+
+    def alt(dirname):
+        def fn(r, w):
+            d = Path(w) / dirname
+            d.mkdir(exist_ok=True)
+            r.object_store.add_alternate_path(str(d))
+        return COp(f"add_alternate_path[{dirname}]", fn, touch={"alternates": set()})
+    O = {
+        "rm_packed": COp("remove_if_equals[packed ref]", lambda r, w: r.refs.remove_if_equals(PK, c1, **kw), {"packed": {PK}}),
+        "apr_del_packed": COp("add_packed_refs{packed: None}", lambda r, w: r.refs.add_packed_refs({PK: None}), {"packed": {PK}}),
+        "apr_del_v0": COp("add_packed_refs{v0: None}", lambda r, w: r.refs.add_packed_refs({V0: None}), {"packed": {V0}}),
+        "apr_topic": COp("add_packed_refs{topic}", lambda r, w: r.refs.add_packed_refs({TOPIC: c1}), {"packed": {TOPIC}}),
+        "apr_master": COp("add_packed_refs{master}", lambda r, w: r.refs.add_packed_refs({MASTER: c1}), {"packed": {MASTER}}),
+        "pack_all": COp("pack_refs(all)", lambda r, w: r.refs.pack_refs(all=True),
+                        {"packed": {MASTER, TOPIC, b"refs/tags/v1", PK, V0}}),
+        "add_new_c2": COp("add_if_new(new2,c2)", lambda r, w: r.refs.add_if_new(NEW2, c2, **kw), refs={NEW2: sha(c2) | sha(c1)}),
+        "add_new_c1": COp("add_if_new(new2,c1)", lambda r, w: r.refs.add_if_new(NEW2, c1, **kw), refs={NEW2: sha(c2) | sha(c1)}),
+        "set_m_c2": COp("set_if_equals(master,c1->c2)", lambda r, w: r.refs.set_if_equals(MASTER, c1, c2, **kw),
+                        {"packed": {MASTER}}, {MASTER: sha(c2)}),
+        "set_m_tree": COp("set_if_equals(master,c1->X)", lambda r, w: r.refs.set_if_equals(MASTER, c1, tree, **kw),
+                          {"packed": {MASTER}}, {MASTER: sha(tree)}),
+        "rm_master": COp("remove_if_equals(master,c1)", lambda r, w: r.refs.remove_if_equals(MASTER, c1, **kw),
+                         {"packed": {MASTER}}, {MASTER: set()}),
+        "rm_topic": COp("remove_if_equals(topic,c1)", lambda r, w: r.refs.remove_if_equals(TOPIC, c1, **kw),
+                        {"packed": {TOPIC}}, {TOPIC: set()}),
+        "set_t_c2": COp("set_if_equals(topic,c1->c2)", lambda r, w: r.refs.set_if_equals(TOPIC, c1, c2, **kw),
+                        {"packed": {TOPIC}}, {TOPIC: sha(c2)}),
+        "sym_topic": COp("set_symbolic_ref(HEAD->topic)", lambda r, w: r.refs.set_symbolic_ref(b"HEAD", TOPIC, **kw),
+                         refs={b"HEAD": {b"ref: refs/heads/topic\n"}}),
+        "sym_master": COp("set_symbolic_ref(HEAD->master)", lambda r, w: r.refs.set_symbolic_ref(b"HEAD", MASTER, **kw),
+                          refs={b"HEAD": {b"ref: refs/heads/master\n"}}),
+        "lref": lref(c1, "locked_ref(master): if ==c1 set c2"),
+        "lref_noop": lref(c2, "locked_ref(master): expectation fails, nothing written"),
+        "cfg_user": cfg((b"user",), b"name", b"Somebody", "config rmw user.name"),
+        "cfg_editor": cfg((b"core",), b"editor", b"ed", "config rmw core.editor"),
+        "idx_b": lidx(b"b.txt", "locked_index add b.txt"),
+        "idx_c": lidx(b"c.txt", "locked_index add c.txt"),
+        "idx_w": COp("Index.write add d.txt", idx_write, {"index": {b"d.txt"}}),
+        "shallow_add": COp("update_shallow(+c2)", lambda r, w: r.update_shallow({c2}, None), {"shallow": {c2}}),
+        "shallow_un": COp("update_shallow(-c1)", lambda r, w: r.update_shallow(None, {c1}), {"shallow": {c1}}),
+        "alt2": alt("alt2"), "alt3": alt("alt3"),
+    }
+    pairs = [("rm_packed", "apr_del_packed"), ("rm_packed", "apr_del_v0"), ("rm_packed", "pack_all"), ("apr_del_packed", "rm_packed"),
+             ("apr_topic", "apr_master"), ("apr_topic", "rm_packed"), ("apr_del_v0", "apr_del_packed"),
+             ("pack_all", "set_m_c2"), ("pack_all", "rm_master"), ("pack_all", "rm_packed"),
+             ("add_new_c2", "add_new_c1"), ("set_m_c2", "set_m_tree"), ("set_m_c2", "rm_master"), ("rm_master", "set_m_c2"),
+             ("rm_topic", "set_t_c2"), ("rm_topic", "apr_topic"), ("sym_topic", "sym_master"),
+             ("lref", "set_m_tree"), ("lref_noop", "set_m_tree"), ("lref_noop", "lref"),
+             ("cfg_user", "cfg_editor"), ("idx_b", "idx_c"), ("idx_w", "idx_b"), ("shallow_add", "shallow_un"),
+             ("alt2", "alt3")]
+    return O, pairs
+
+
+def _callers_baseline(tpl: Path) -> dict:
+    base = {}
+    for rel in [".git/packed-refs", ".git/config", ".git/index", ".git/shallow", ".git/objects/info/alternates", ".git/HEAD",
+                ".git/refs/heads/master", ".git/refs/heads/topic", ".git/refs/tags/v1"]:
+        try:
+            got = _read_kind(tpl, rel, _kind_of(rel))
+        except ValueError as e:
+            raise core.InfraError(f"template file {rel} does not parse: {e}")
+        if got is not None:
+            base[rel] = got
+    return base
+
+
+def _stream_callers2(ctx, base: Path, only_pairs=None, fixed_schedule=None, stream="sched.callers2", verbose=False):
+    tpl = base / "tpl"
+    ids = build_template(tpl)
+    baseline = _callers_baseline(tpl)
+    O, pairs = _caller_ops(ids)
+    w = base / "w"
+    cov = {}
+    rng = ctx.rng
+    for an, bn in pairs:
+        if only_pairs and (an, bn) not in only_pairs:
+            continue
+        a, b = O[an], O[bn]
+        lens = []
+        skip = None
+        for op in (a, b):
+            cr = run_callers(tpl, w, [op], [], baseline)
+            if cr.error:
+                raise core.InfraError(f"callers2 solo run of {op.name} failed: {cr.error}")
+            if cr.results.get(0) != "ok":
+                skip = f"{op.name} does not run on its own in this tree ({cr.results.get(0)})"
+            for what, cls in cr.bad:
+                ctx.oracle_fail(stream, {"ops": [op.name], "schedule": [], "events": cr.events}, f"{op.name} alone: {what}", cls)
+            lens.append(len(cr.steps))
+        if skip:
+            ctx.notes.append(f"sched.callers2: pair {an}/{bn} skipped: {skip}")
+            continue
+        one = list(sched.enumerate_schedules({"0": lens[0], "1": lens[1]}, 1))
+        two = [x for x in sched.enumerate_schedules({"0": lens[0], "1": lens[1]}, 2) if x not in one]
+        cap = ctx.budget(30)
+        pick = one + (two if (ctx.thorough or len(two) <= cap) else rng.sample(two, cap))
+        if fixed_schedule is not None:
+            pick, one, two = [[str(x) for x in fixed_schedule]], [], []
+        locked = 0
+        for sch in pick:
+            steps = [int(x) for x in sch]
+            cr = run_callers(tpl, w, [a, b], steps, baseline)
+            if cr.error:
+                raise core.InfraError(f"callers2 {a.name} / {b.name} schedule {steps}: {cr.error}")
+            case = {"pair": [an, bn], "ops": [a.name, b.name], "schedule": steps, "executed": cr.steps,
+                    "results": cr.results, "events": [list(e) for e in cr.events]}
+            ctx.count(stream, (an, bn, tuple(cr.steps)), True, f"{an}/{bn}")
+            locked += any(v == "exc:FileLocked" for v in cr.results.values())
+            if verbose:
+                for k, e in enumerate(cr.events):
+                    print("replay step", k, e)
+                print("replay results", cr.results)
+            for what, cls in cr.bad:
+                ctx.oracle_fail(stream, case, f"{a.name} || {b.name}: {what}", cls)
+        cov[f"{an}/{bn}"] = {"yield_points": lens, "schedules": len(pick), "le1_preemption": len(one), "le2_total": len(one) + len(two),
+                             "runs_with_FileLocked": locked}
+    if fixed_schedule is None:
+        ctx.extra_cov["callers2_pairs"] = cov
+
+
 def run(ctx: core.Ctx):
     base = Path(os.path.realpath(ctx.scratch))
     root = base / "sched"
@@ -1548,7 +1967,8 @@ def run(ctx: core.Ctx):
     streams = [lambda: _run_corpus(ctx, root, lines), lambda: _stream_exhaustive2(ctx, root, lines),
                lambda: _stream_faults2(ctx, root, lines), lambda: _stream_faultseq(ctx, root, lines),
                lambda: _stream_three(ctx, root, lines),
-               lambda: _stream_random(ctx, root, lines), lambda: _stream_fault_callers(ctx, base / "callers")]
+               lambda: _stream_random(ctx, root, lines), lambda: _stream_fault_callers(ctx, base / "callers"),
+               lambda: _stream_callers2(ctx, base / "callers2")]
     for st in streams:
         st()
         flush_model(ctx, lines)
@@ -1646,6 +2066,9 @@ def replay(ctx: core.Ctx, data: dict) -> int:
         flush_model(ctx, lines)
         for d in ctx.disagreements:
             print("replay: model/implementation disagreement:", d["model"][:300], "VS", d["impl"][:300])
+    elif "pair" in c:
+        _stream_callers2(ctx, base / "replay-callers2", only_pairs={tuple(c["pair"])}, fixed_schedule=c["schedule"],
+                         stream="replay", verbose=True)
     elif "routine" in c:
         _stream_fault_callers(ctx, base / "replay-callers", only={c["routine"]},
                               only_fault=(c.get("fail_at"), c.get("fault")) if isinstance(c.get("fail_at"), int) else None)
